@@ -179,10 +179,9 @@ def gen_program(rng, meta, n=None, kinds=None):
             # the operator of a cell's top-level geometry; most of the time followed by the opposite assignment
             # (two edits that cancel: with an observation in between for C19)
             o = rng.choice(meta["cells"])
-            v = rng.choice(["union", "intersection"])
-            prog.append({"kind": k, "orig": o, "value": v})
+            prog.append({"kind": k, "orig": o, "value": "union", "pattern": "there-and-back"})
             if rng.random() < 0.7:
-                prog.append({"kind": k, "orig": o, "value": "intersection" if v == "union" else "union"})
+                prog.append({"kind": k, "orig": o, "value": "intersection", "pattern": "there-and-back"})
         elif k == "data_append":
             prog.append({"kind": k, "text": rng.choice(["ctme 60", "prdmp 2j 1", "void", "dbcn 12345"])})
         elif k == "placement":
@@ -361,6 +360,16 @@ def apply(h, e):
         g = c.geometry
         if type(g).__name__ != "HalfSpace" or g.operator not in (Operator.UNION, Operator.INTERSECTION):
             return False, []
+        if e.get("pattern") == "there-and-back":
+            # only 'an intersection is made a union and (usually) an intersection again': the other direction (a
+            # union of the file made an intersection and a union again) is the finding F-C19-operator-switched-back
+            sw = h.__dict__.setdefault("switched", set())
+            if e["value"] == "union":
+                if g.operator != Operator.INTERSECTION:
+                    return False, []
+                sw.add(e["orig"])
+            elif e["orig"] not in sw or g.operator != Operator.UNION:
+                return False, []
         g.operator = Operator.UNION if e["value"] == "union" else Operator.INTERSECTION
         return True, []
     if k == "boundary":
